@@ -20,7 +20,7 @@ W == MkWorld(Case.world)
 
 RECURSIVE DocKnown(_)
 DocKnown(t) ==
-  CASE t.k \in {"cls", "lit", "startswith", "endswith", "haskey"} -> TRUE
+  CASE t.k \in {"cls", "lit", "startswith", "endswith", "haskey", "exactly"} -> TRUE
     [] t.k \in {"union", "inter", "prod"} -> \A j \in DOMAIN t.args : DocKnown(t.args[j])
     [] t.k \in {"seqof", "collof"} -> DocKnown(t.arg)
     [] t.k = "mapof" -> DocKnown(t.kt) /\ DocKnown(t.vt)
